@@ -28,6 +28,10 @@ fn probes(lines: &[Line], extra: &Line) -> Vec<Line> {
     }
     ids.truncate(4);
     let mut out = Vec::new();
+    // a decodable unfragmented sentence with decoding on: residue of an earlier payload (a scratch buffer
+    // that was not cleared, say) shows in the message it decodes to
+    out.push(Line::new(b"!AIVDM,1,1,,B,177KQJ5000G?tO`K>RA1wUbN0TKH,0*5C".to_vec(), true));
+    out.push(Line::new(b"!AIVDM,1,1,,A,H42O55i18tMET00000000000000,2*6D".to_vec(), true));
     for id in ids {
         for k in 2..=9u32 {
             out.push(Line::new(build::line(k, k, id, b"A", b"P", 0), false)); // final
